@@ -4,14 +4,14 @@ import Sftp.Props.C01
 import Sftp.Generated.TransferFacts
 /-
   C01 / C12 / C13 for the code as it is now: the M-Transfer theorems instantiated with the facts
-  the translator read off client.go (Generated/TransferFacts.lean).  `cfgOf` builds a model
+  the translator read off client.go (Generated/TransferFacts.lean).  `cfgOfOptions` builds a model
   configuration from run-time options; its two source-fact fields are the regenerated ones.
 -/
 namespace Sftp.C12
 open Sftp Sftp.Transfer Sftp.Spec.OsFile
 
 /-- a model configuration for arbitrary client/server options with the source facts of the current tree -/
-def cfgOf (maxPacket maxConc : Nat) (concReads concWrites useFstat : Bool) (maxTx : Nat) : Cfg :=
+def cfgOfOptions (maxPacket maxConc : Nat) (concReads concWrites useFstat : Bool) (maxTx : Nat) : Cfg :=
   { maxPacket := maxPacket, maxConc := maxConc, concReads := concReads, concWrites := concWrites,
     useFstat := useFstat, maxTx := maxTx,
     writeToMovesOnEmpty := G.writeToMovesOnEmpty, readFromMasksWriteErr := G.readFromMasksWriteErr }
@@ -29,7 +29,7 @@ theorem facts_current :
 /-- C12.offset_refines for every option set with packet size within the server's payload limit. -/
 theorem offset_refines_current (mp conc : Nat) (cr cw fs : Bool) (maxTx : Nat) (hmp : 1 ≤ mp) (htx : mp ≤ maxTx) :
     ∀ (calls : List Call) (sv : Served) (s : FileSt) (o : OsSt), Sim s o →
-      ∀ p ∈ trace (cfgOf mp conc cr cw fs maxTx) sv s o calls, p.1.offset = p.2.1.offset ∧ p.1.closed = p.2.1.closed :=
-  offset_refines (cfgOf mp conc cr cw fs maxTx) hmp htx facts_current.1 facts_current.2.1
+      ∀ p ∈ trace (cfgOfOptions mp conc cr cw fs maxTx) sv s o calls, p.1.offset = p.2.1.offset ∧ p.1.closed = p.2.1.closed :=
+  offset_refines (cfgOfOptions mp conc cr cw fs maxTx) hmp htx facts_current.1 facts_current.2.1
 
 end Sftp.C12
